@@ -11,7 +11,7 @@
   con.connection.Close() was called                             | St.closed
   `for readBuffer == nil || readBuffer.Len() == 0 { … }`        | fetch  (one iteration per frame / per network event)
   buffered.Peek(2); buffered.Peek(2+len+16)  (fill = 1 net read)| `f.size ≤ s.buf`, otherwise `more` (consumes one event)
-  Decrypt(io.LimitReader(buffered, size)): exactly one frame    | frame dropped from todo; `ok = false` → Close, (0, Close())
+  Decrypt(io.LimitReader(buffered, size)): exactly one frame    | frame dropped from todo; `ok = false` → Close, (0, decryption error), sticky
   Peek fails (not a timeout): Close, return the read error      | Ev.closed → Res.eof, St.closed; closed before → Res.closed true
   readBuffer.Read(b)  (bytes.Buffer.Read)                       | bufRead
   net.Conn.Read: data / deadline error (Timeout() = true) / EOF | Ev.seg n / Ev.idle / Ev.closed
@@ -42,7 +42,7 @@ inductive Res (α : Type)
   | data (bs : List α)     -- (len bs, nil)
   | eof                    -- (0, io.EOF): the peer closed (the connection is closed in turn), or bytes.Buffer.Read on an empty buffer
   | timeout                -- (0, net.Error with Timeout() = true)
-  | closed (again : Bool)  -- `false`: decryption failed, connection closed, (0, Close() = nil);
+  | closed (again : Bool)  -- `false`: decryption failed, connection closed, (0, the decryption error);
                            -- `true`: the connection was closed before: (0, read error / Close() error)
   | block                  -- the call does not return: no event left
 deriving DecidableEq, Repr
